@@ -89,6 +89,10 @@ type Family struct {
 	// Extra runs once in the parent process: additional exhaustive sub-checks of the same property
 	// whose coverage and violations are merged into the family's evidence.
 	Extra func(tier string) (map[string]any, []engine.Violation)
+	// Persistent: every cycle transition is computed by replaying the node's WHOLE path on ONE live
+	// scheduler cache (schedrun.RunPath) instead of a fresh cache on the node's world: what the cache
+	// remembers between cycles takes part. Costs depth x as many cycles; for small focused families.
+	Persistent bool
 	// Vacuity inspects the summed oracle counters; a non-empty string aborts the check with exit 2.
 	Vacuity func(extra map[string]int) string
 }
@@ -169,7 +173,13 @@ func (f *Family) Explore(scn *Scenario, tier string, maxStates int) *ScenarioSta
 			obs = f.NewObserver(n.w, cfg)
 			sobs = obs
 		}
-		res, err := schedrun.RunCycle(n.w, cfg, sobs)
+		var res *schedrun.Result
+		var err error
+		if f.Persistent && len(n.path) > 0 {
+			res, err = schedrun.RunPath(scn.World, pathSteps(n.path, cfg), sobs)
+		} else {
+			res, err = schedrun.RunCycle(n.w, cfg, sobs)
+		}
 		if err != nil {
 			st.HarnessError = fmt.Sprintf("%s path=%v: %v", scn.Name, n.path, err)
 			return nil, nil, false
@@ -366,6 +376,28 @@ func applyMacroEnv(w *world.World, o EnvOpts) {
 	}
 }
 
+// pathSteps turns a recorded path (+ the cycle to run next) into the steps of schedrun.RunPath.
+func pathSteps(path []Step, next schedrun.Config) []schedrun.PathStep {
+	var out []schedrun.PathStep
+	for _, s := range path {
+		s := s
+		if s.Kind == "cycle" {
+			out = append(out, schedrun.PathStep{Cfg: s.Cfg})
+		} else {
+			out = append(out, schedrun.PathStep{Env: func(w *world.World) error { return ApplyEnvByName(w, s.Event) }})
+		}
+	}
+	return append(out, schedrun.PathStep{Cfg: &next})
+}
+
+func mustWorld(js []byte) *world.World {
+	w, err := world.FromJSON(js)
+	if err != nil {
+		panic(err)
+	}
+	return w
+}
+
 // ReplayPath re-executes a recorded path and returns the last cycle's transition.
 func (f *Family) ReplayPath(r *Replay) (*Transition, error) {
 	w, err := world.FromJSON(r.Initial)
@@ -382,7 +414,13 @@ func (f *Family) ReplayPath(r *Replay) (*Transition, error) {
 				obs = f.NewObserver(w, *s.Cfg)
 				sobs = obs
 			}
-			res, err := schedrun.RunCycle(w, *s.Cfg, sobs)
+			var res *schedrun.Result
+			var err error
+			if f.Persistent && i > 0 {
+				res, err = schedrun.RunPath(mustWorld(r.Initial), pathSteps(r.Path[:i], *s.Cfg), sobs)
+			} else {
+				res, err = schedrun.RunCycle(w, *s.Cfg, sobs)
+			}
 			if err != nil {
 				return nil, err
 			}
